@@ -24,7 +24,9 @@ class LookupFsDev(fs.fsDev):
             if st is None or any(
                 f(st.st_mode) for f in (stat.S_ISREG, stat.S_ISDIR, stat.S_ISFIFO)
             ):
-                kwds["strict"] = True
+                # the node is gone (or something else took its place): the
+                # record still names a device, its numbers are just unknown
+                kwds["strict"] = False
             else:
                 major, minor = fs.get_major_minor(st)
                 kwds["major"] = major
